@@ -1,7 +1,8 @@
 (* Properties/C13.v -- DPLSTM / DPGRU / DPRNN are drop-in equivalents of the torch.nn recurrent layers  (PARTIAL: torch's kernels and the
    gate equations are compared numerically; proved here is the index plumbing of the packed time loop, for EVERY cell). *)
-From Coq Require Import List Arith Lia.
-From OV Require Import Gen.Rnn Proofs.RnnP Proofs.RnnStack.
+From Coq Require Import List Arith Lia Bool.
+From Coq Require String.
+From OV Require Import Gen.Rnn Proofs.RnnP Proofs.RnnStack Proofs.RenameP.
 Import ListNotations.
 
 (* running the code's batched time loop (batch shrinking with the packed sequence, previous state sliced to the current batch) on the
@@ -60,6 +61,21 @@ Example C13_nonvacuous :
   loop (fun x h => x + 2 * h) (cols 4 [[1; 2; 3; 4]; [5; 6; 7]; [8; 9]]) [0; 1; 2] = cols 4 (scans (fun x h => x + 2 * h) [0; 1; 2] [[1; 2; 3; 4]; [5; 6; 7]; [8; 9]]).
 Proof. repeat split; try (cbn; lia); vm_compute; reflexivity. Qed.
 
+(* "its state_dict has exactly the torch layer's keys, so checkpoints move in both directions" -- also when the layer is a sub-module of a
+   model (keys carry a prefix): on the definitions generated from param_rename.py the state_dict hook removes exactly the keys
+   prefix + sub-module name and nothing else, and on loading every sub-module name whose renamed key is present is offered to the
+   sub-modules (so a strict load finds nothing missing); the filter that ignores the prefix leaves the sub-module keys of a nested layer in *)
+Theorem C13_state_dict_keys_nested (prefix : String.string) (olds keys : list String.string) (k : String.string) :
+  In k (rename_filter prefix olds keys) <-> In k keys /\ ~ (exists o, In o olds /\ k = String.append prefix o).
+Proof. exact (rename_filter_spec prefix olds keys k). Qed.
+Theorem C13_load_offers_submodule_names (prefix : String.string) (pairs : list (String.string * String.string)) (keys : list String.string) (o n : String.string) :
+  incl keys (rename_offer prefix pairs keys) /\
+  (In (o, n) pairs -> In (String.append prefix n) keys -> In (String.append prefix o) (rename_offer prefix pairs keys)).
+Proof. exact (conj (rename_offer_incl prefix pairs keys) (rename_offer_spec prefix pairs keys o n)). Qed.
+Theorem C13_unprefixed_filter_refuted : exists prefix olds keys k,
+  In k (filter (fun k => negb (existsb (fun o => String.eqb k o) olds)) keys) /\ In k keys /\ exists o, In o olds /\ k = String.append prefix o.
+Proof. exact rename_filter_unprefixed_refuted. Qed.
+
 Print Assumptions C13_packed_forward_refines_scan.
 Print Assumptions C13_reverse_loop_rows.
 Print Assumptions C13_reverse_layer_rows.
@@ -67,3 +83,6 @@ Print Assumptions C13_seq_lengths_correct.
 Print Assumptions C13_seq_lengths_length.
 Print Assumptions C13_layer_stack.
 Print Assumptions C13_sort_unsort_rowwise.
+Print Assumptions C13_state_dict_keys_nested.
+Print Assumptions C13_load_offers_submodule_names.
+Print Assumptions C13_unprefixed_filter_refuted.
